@@ -135,6 +135,11 @@ func (c *Ctx) Incomplete(note string) {
 	c.mx.Lock()
 	defer c.mx.Unlock()
 	c.R.Exhaustive = false
+	for _, n := range c.R.Notes {
+		if n == note {
+			return
+		}
+	}
 	c.R.Notes = append(c.R.Notes, note)
 }
 
